@@ -360,6 +360,14 @@ def cases(seed, tier, model_tuples=None):
         c = make_case(rng, big, "inline" if chain else "none", chain, False, "sparse", file="/w/src/big.js")
         c["name"] = "big/%s" % chain
         out.append(c)
+    # a line of more than 65 536 columns followed by lines laid out the same way (positions whose low 16 bits agree)
+    stmt = "function m(a, b) { const v = a + b(); return v.trim(); } function n(c) { return `${c}` + c; }"
+    for pad in (65536, 65536 * 2, 65536 + 7):
+        longline = "/*" + "x" * (pad - 4) + "*/" + stmt + "\n" + stmt + "\n" + stmt.replace("m(", "m2(") + "\n"
+        for style in ("dense", "random"):
+            c = make_case(rng, longline, "inline", True, False, style, file="/w/src/min.js")
+            c["name"] = "longline/%d/%s" % (pad, style)
+            out.append(c)
     # the reader production code uses, pointed at things that are not regular files: a reference must never make the
     # call hang or exhaust memory (a FIFO nobody writes to, an endless device, a directory)
     specials = os.path.join(vlib.WORK, "specials")
@@ -373,6 +381,26 @@ def cases(seed, tier, model_tuples=None):
             out.append({"code": code, "file": "/w/src/app.js", "config": dict(sp.FULL_CFG, chainSourceMap=chain, comments=False),
                         "reader": {"real": True, "parent": "default", "files": {}}, "kind": "missing", "usable": False, "otoks": [],
                         "ref": "//# sourceMappingURL=" + target, "name": "special/%s/%s" % (target, chain)})
+    # ... and at what IS the file's map: a regular file, a symbolic link to it, a link to that link, a link
+    # reached through a relative reference (pnpm / bazel style layouts)
+    for k, via in enumerate(("file", "link", "link2", "rel_link")):
+        c = make_case(rng, LAYOUT_TEMPLATES[k % len(LAYOUT_TEMPLATES)], "external_abs", True, k % 2 == 0, "random", file=os.path.join(specials, "src", "app.js"))
+        omap = c["reader"]["files"]["/maps/app.js.map"]["content"]
+        real = os.path.join(specials, "real-%d.map" % k)
+        with open(real, "w") as f:
+            f.write(omap)
+        os.makedirs(os.path.join(specials, "src"), exist_ok=True)
+        l1, l2 = os.path.join(specials, "l1-%d.map" % k), os.path.join(specials, "src", "l2-%d.map" % k)
+        for ln, tgt in ((l1, real), (l2, l1)):
+            if os.path.lexists(ln):
+                os.remove(ln)
+            os.symlink(tgt, ln)
+        target = {"file": real, "link": l1, "link2": l2, "rel_link": "l2-%d.map" % k}[via]
+        c["code"] = c["code"].replace("//# sourceMappingURL=/maps/app.js.map", "//# sourceMappingURL=" + target)
+        c["ref"] = "//# sourceMappingURL=" + target
+        c["reader"] = {"real": True, "parent": "default", "files": {}}
+        c["name"] = "special/real-map/%s" % via
+        out.append(c)
     # unusual but legal file names (a backslash is an ordinary character on a '/'-separated host; names that
     # look like V8's virtual ones): the map's only source is still the base name, every position resolves
     for fn in ["/srv/app/generated\\join.js", "dist\\join.js", "<anonymous>", "<eval>/join.js", "/srv/app/lib/<generated>.js",
